@@ -51,6 +51,7 @@ type Stats struct {
 	HarnessError   string
 	SampleTraces   []string
 	MaxThreads     int
+	Counters       map[string]int64
 }
 
 type node struct {
@@ -163,6 +164,12 @@ func Explore(cfg ExploreConfig, body func()) *Stats {
 				st.Blocked++
 			}
 			st.Outcomes[oh]++
+			for k, v := range res.Counters {
+				if st.Counters == nil {
+					st.Counters = map[string]int64{}
+				}
+				st.Counters[k] += v
+			}
 			if len(st.SampleTraces) < 4 && (st.Executions == 1 || st.Executions%9973 == 0) {
 				st.SampleTraces = append(st.SampleTraces, fmt.Sprintf("choices=%v obs=%s", choicesOf(res.Trace), strings.Join(res.Obs, " | ")))
 			}
